@@ -29,7 +29,7 @@ RULE = (
     "ValueError; the well-formed state must be accepted and return the same shape and dtype. Hypothesis "
     "additionally draws arbitrary wrong shapes (rank 1-5). Every documented constructor / argument "
     "restriction is enumerated with the documented exception type and, where one exists, its neighbouring "
-    "valid call. Non-trivial: every case (each is a distinct class x D x kind or restriction)."
+    "valid call. Non-trivial: every case (each is a distinct class x D x kind or restriction). Malformed states also through RepeatedStepper(n=1), eqx.filter_jit, ex.rollout and jax.vmap."
 )
 ASSUMPTIONS = [
     "float64 session",
